@@ -13,6 +13,7 @@ import (
 	"math/rand"
 	"sort"
 	"strings"
+	"time"
 
 	hg "github.com/mosaicnetworks/babble/src/hashgraph"
 	bnet "github.com/mosaicnetworks/babble/src/net"
@@ -211,6 +212,40 @@ func runC17(r *Result, thorough bool) {
 			r.Violate("impl-violation", fmt.Sprintf("a node without quorum created %d undetermined events (limit %d x %d validators) and never suspended itself", len(vc.Hashgraph().UndeterminedEvents), limit, len(nodes)), "never-suspended", nil)
 		} else if suspendedAt != limit*vc.Validators().Len()+1+t.n.VerifInitialUndeterminedEvents() {
 			r.Violate("impl-violation", fmt.Sprintf("suspended at %d undetermined events, expected at %d", suspendedAt, limit*vc.Validators().Len()+1), "suspended-at", nil)
+		}
+		// the same with a request still in flight (a JoinRequest handler waits up to the join timeout for
+		// consensus): the node must be Suspended, and refuse pushes, from the moment the limit is exceeded,
+		// not only once its routines have finished
+		{
+			fn := newRealNodes(rng, 3+rng.Intn(2), 1000)
+			ft, pusher := fn[0], fn[1]
+			fvc := ft.n.VerifCore()
+			release := make(chan struct{})
+			ft.n.GoFunc(func() { <-release })
+			for k := 0; k < ft.n.VerifSuspendLimit()*fvc.Validators().Len()+2; k++ {
+				ft.n.VerifAddTransaction([]byte(fmt.Sprintf("f%d", k)))
+				fvc.AddSelfEvent("")
+			}
+			done := make(chan struct{})
+			go func() { ft.n.VerifCheckSuspend(); close(done) }()
+			time.Sleep(60 * time.Millisecond)
+			st := ft.n.GetState()
+			before := ft.dagDigest()
+			pusher.n.VerifAddTransaction([]byte("push"))
+			pusher.n.VerifCore().AddSelfEvent("")
+			diff, _ := pusher.n.VerifCore().EventDiff(fvc.KnownEvents())
+			wire, _ := pusher.n.VerifCore().ToWire(diff)
+			cls, _, _ := rpcCall(ft.n, &bnet.EagerSyncRequest{FromID: pusher.n.GetID(), Events: wire})
+			after := ft.dagDigest()
+			close(release)
+			<-done
+			r.Inc("suspensions_with_a_request_in_flight", 1)
+			if st != _state.Suspended {
+				r.Violate("impl-violation", fmt.Sprintf("over its suspend limit with a request still in flight, the node is %s, not Suspended", st.String()), "suspend-waits-for-routines", nil)
+			}
+			if cls == "ok" || before != after {
+				r.Violate("impl-violation", fmt.Sprintf("over its suspend limit with a request still in flight, the node handled an eager push (%s): %s -> %s", cls, before, after), "suspend-window-push", nil)
+			}
 		}
 		// evicted: removal round reached by the last consensus round (fresh nodes with a high limit so
 		// that only the eviction clause can fire)
